@@ -28,7 +28,7 @@ theorem restFrame_append (g : Rest → Rest) (h : ∀ r, (g r).prog = r.prog ∧
 
 /-! ### `run_to_completion`'s helpers (Run.lean): any operation except `status = STOPPING` -/
 section run
-attribute [local spec] applyOp_keeps forInL_keeps mapM_keeps getRest_keeps getIx_keeps pyRaise_keeps unsupported_keeps modifyRest_keeps freshUid_keeps getInst?_keeps getInst_keeps getInstX?_keeps getInstX_keeps modInstX_keeps ctxHolder_keeps getCtx_keeps setCtxVar_keeps getHead?_keeps getHeadX_keeps modHeadX_keeps getCfg_keeps cfgOfInst_keeps getAction?_keeps setAction_keeps pushEvent_keeps pushLeftEvent_keeps valueErr_keeps lookupVar_keeps attrOf_keeps evalExpr_keeps evalIn_keeps evalEmpty_keeps evalArgs_keeps attemptPy_keeps instanceArguments_keeps flowObjOf_keeps flowStartEvent_keeps flowGetEvent_keeps actionGetEvent_keeps tempAction_keeps tempFlowObj_keeps resolveRef_keeps getEventName_keeps getEvent_keeps eventMatchingScore_keeps updateActionStatusByEvent_keeps generateUmimEvent_keeps releaseAction_keeps isReferenceActivated_keeps isChildActivated_keeps failedEvent_keeps restartActivated_keeps logActionOrIntents_keeps nameFor_keeps headScores_keeps headKeyScores_keeps labelPos_keeps pickChoice_keeps
+attribute [local spec] applyOp_keeps forInL_keeps mapM_keeps getRest_keeps getIx_keeps pyRaise_keeps unsupported_keeps modifyRest_keeps freshUid_keeps getInst?_keeps getInst_keeps getInstX?_keeps getInstX_keeps modInstX_keeps ctxHolder_keeps getCtx_keeps setCtxVar_keeps getHead?_keeps getHeadX_keeps modHeadX_keeps getCfg_keeps cfgOfInst_keeps getAction?_keeps setAction_keeps pushEvent_keeps pushLeftEvent_keeps valueErr_keeps lookupVar_keeps attrOf_keeps evalExpr_keeps evalIn_keeps evalEmpty_keeps evalArgs_keeps attemptPy_keeps instanceArguments_keeps flowObjOf_keeps flowStartEvent_keeps flowGetEvent_keeps actionGetEvent_keeps tempAction_keeps tempFlowObj_keeps resolveRef_keeps getEventName_keeps getEvent_keeps eventMatchingScore_keeps updateActionStatusByEvent_keeps generateUmimEvent_keeps releaseAction_keeps isReferenceActivated_keeps deactivatesRef_keeps isChildActivated_keeps failedEvent_keeps restartActivated_keeps logActionOrIntents_keeps nameFor_keeps headScores_keeps headKeyScores_keeps labelPos_keeps pickChoice_keeps
 variable (I : StInv) (hall : ∀ op, NotStoppingOp op → I.okOp op)
 include hall
 
@@ -81,9 +81,13 @@ theorem startFlow_keeps (f a) : Keeps I (startFlow f a) := by
   all_goals (first | rest_frame | skip)
 attribute [local spec] startFlow_keeps
 omit hall in
+theorem handleMatch_keeps (e k cfg hd) : Keeps I (handleMatch e k cfg hd) := by
+  unfold handleMatch; simp only [forIn_eq_forInL]; mvcgen
+  all_goals (first | rest_frame | skip)
+omit hall in
 theorem handleEventMatching_keeps (e hs) : Keeps I (handleEventMatching e hs) := by
   unfold handleEventMatching; simp only [forIn_eq_forInL]; mvcgen
-  all_goals (first | rest_frame | skip)
+  all_goals (first | rest_frame | exact handleMatch_keeps I e _ _ _ | skip)
 omit hall in
 theorem generateActionEvent_keeps (k) : Keeps I (generateActionEvent k) := by
   unfold generateActionEvent; mvcgen
